@@ -323,8 +323,17 @@ def rule_ndjson_sentinel(out):
             p = parents.get(n)
             while p is not None and isinstance(p, ast.NamedExpr):
                 p = parents.get(p)
-            cmp_ok = isinstance(p, ast.Compare) and len(p.ops) == 1 and isinstance(p.ops[0], (ast.IsNot, ast.Is)) and \
-                isinstance(p.comparators[0], ast.Name) and p.comparators[0].id in sentinels
+            def id_cmp(c):
+                return isinstance(c, ast.Compare) and len(c.ops) == 1 and isinstance(c.ops[0], (ast.IsNot, ast.Is)) and \
+                    isinstance(c.comparators[0], ast.Name) and c.comparators[0].id in sentinels
+            cmp_ok = id_cmp(p)
+            if not cmp_ok and isinstance(p, ast.Assign) and len(p.targets) == 1 and isinstance(p.targets[0], ast.Name):
+                # `found = line.get(step, SENTINEL)` ... `if found is SENTINEL:` — every test of the local is an identity test with the sentinel
+                v = p.targets[0].id
+                tests = [c for c in ast.walk(fn) if isinstance(c, ast.Compare) and isinstance(c.left, ast.Name) and c.left.id == v]
+                truthy = [t for t in ast.walk(fn) if isinstance(t, (ast.If, ast.While, ast.IfExp)) and
+                          (isinstance(t.test, ast.Name) and t.test.id == v or isinstance(t.test, ast.UnaryOp) and isinstance(t.test.operand, ast.Name) and t.test.operand.id == v)]
+                cmp_ok = bool(tests) and all(id_cmp(c) for c in tests) and not truthy
             out.check(has_default and cmp_ok, rid, key, pos(rel, n), "sentinel default, compared by identity with the sentinel",
                       "the look-up does not use the sentinel default with an identity comparison: a step whose JSON value is null is taken for an absent step "
                       "(required step → 'not found' error on valid data; stream of optionals starting with null → reported empty)")
@@ -1713,7 +1722,7 @@ def rule_ndjson_key_order(out):
 def rule_py_refill_scope(out):
     rid = "PE2"
     out.rule(rid, "CodedInputStream: each indexed buffer read / unpack_from has a refill test for at least the bytes it consumes before it in the same loop iteration "
-                  "(inline `available < n → _fill_buffer(n)`, a helper with that body, or an unconditional _fill_buffer(n))", 3)
+                  "(inline `available < n → _fill_buffer(n)`, a helper with that body, or an unconditional _fill_buffer(n))", 2)
     tree, rel = parse_py(out, "_binary.py")
     cls = classes(tree).get("CodedInputStream")
     if cls is None:
